@@ -282,12 +282,26 @@ func sockMain() {
 				done++
 				// the twin: the same request through the handler chain in process
 				tc[ci].toks = nil
-				func() {
+				twinDone := make(chan struct{})
+				go func() {
+					defer close(twinDone)
 					defer func() { recover() }()
 					args := make([][]byte, len(req))
 					copy(args, req)
 					h(tc[ci], redcon.Command{Args: args})
 				}()
+				select {
+				case <-twinDone:
+				case <-time.After(wireHangAfter):
+					// the handler chain never returned (in process); the real server is asked below
+					var raw bytes.Buffer
+					_, rerr := readReply(rs[ci], &raw)
+					report(req, nil, raw.Bytes(), false, fmt.Sprintf("the request does not return (HANG); real server: %v", rerr))
+					out.Flush()
+					cmd.Process.Kill()
+					os.RemoveAll(dir)
+					os.Exit(0)
+				}
 				exp := append([]string(nil), tc[ci].toks...)
 				wireExp := make([]string, len(exp))
 				for i, t := range exp {
